@@ -65,7 +65,7 @@ type DOp struct {
 	Dur       int64  `json:"dur,omitempty"`
 	// deliver / raw / pushpull / craft
 	Pool   int        `json:"pool,omitempty"`
-	Mut    string     `json:"mut,omitempty"` // "" | flip | trunc | append | rekey
+	Mut    string     `json:"mut,omitempty"` // "" | flip | trunc | append | rekey | skew (MutVal = ms the sender's clock is ahead)
 	MutPos int        `json:"mutpos,omitempty"`
 	MutVal int        `json:"mutval,omitempty"`
 	ReKey  string     `json:"rekey,omitempty"`
@@ -650,6 +650,53 @@ func mutate(b []byte, op *DOp) []byte {
 	return out
 }
 
+// skew: the captured notification-log update as a sender whose wall clock runs op.MutVal milliseconds AHEAD of the
+// receiver's would have produced it (entry timestamp and expiry moved together). Instances' clocks agree only up to
+// NTP precision; a connected instance owes the merge of such an update like of any other (C19: "every update reaches
+// every connected instance" - reaching means merged, not parsed and dropped). Other payloads are left as they are.
+func (d *delegRun) skew(b []byte, op *DOp) []byte {
+	var p clusterpb.Part
+	if proto.Unmarshal(b, &p) != nil {
+		return b
+	}
+	nfl := false
+	for _, regs := range d.c.Peers {
+		for _, rg := range regs {
+			if rg.Key == p.Key && rg.Nfl {
+				nfl = true
+			}
+		}
+	}
+	if !nfl {
+		return b
+	}
+	dt := time.Duration(op.MutVal) * time.Millisecond
+	br := bytes.NewReader(p.Data)
+	var out bytes.Buffer
+	for {
+		var e nfpb.MeshEntry
+		err := protodelim.UnmarshalFrom(br, &e)
+		if errors.Is(err, io.EOF) {
+			break
+		}
+		if err != nil || e.Entry == nil || e.Entry.Timestamp == nil || e.ExpiresAt == nil {
+			return b
+		}
+		e.Entry.Timestamp = timestamppb.New(e.Entry.Timestamp.AsTime().Add(dt))
+		e.ExpiresAt = timestamppb.New(e.ExpiresAt.AsTime().Add(dt))
+		if _, err := protodelim.MarshalTo(&out, &e); err != nil {
+			return b
+		}
+	}
+	p.Data = out.Bytes()
+	nb, err := proto.Marshal(&p)
+	if err != nil {
+		return b
+	}
+	d.tags["deliver-sender-clock-ahead"]++
+	return nb
+}
+
 func (d *delegRun) localUpdateToShadow(s *stateRT) {
 	for _, b := range s.rec {
 		var err error
@@ -767,6 +814,9 @@ func (d *delegRun) exec(op *DOp) {
 		}
 		m := d.pool[op.Pool%len(d.pool)]
 		b := mutate(m.b, op)
+		if op.Mut == "skew" {
+			b = d.skew(m.b, op)
+		}
 		via := op.Via
 		if via == "" {
 			via = "notify"
@@ -1249,6 +1299,8 @@ func genDeleg(r *vh.Rand, maxOps int) *DelegCase {
 				op.Mut, op.MutPos, op.MutVal = "append", r.Intn(256), r.Intn(256)
 			case 3:
 				op.Mut, op.ReKey = "rekey", vh.Pick(r, allKeys)
+			case 4:
+				op.Mut, op.MutVal = "skew", vh.Pick(r, []int{1, 3, 40, 200, 1500, 60000})
 			}
 			if r.Chance(1, 12) {
 				op.Via = "merge"
